@@ -168,9 +168,29 @@ def match_ops(prog: Program) -> RuleResult:
     comp = prog.cls("symbolic.Comparator")
     ap = prog.method(comp.qual, "apply_operation", inherited=False)
     calls = [x for x in calls_in(ap.node) if src(x.func) == "self.operation"]
-    ok = len(calls) == 1 and src(calls[0].args[0]).startswith("left_value") and src(calls[0].args[1]).startswith("right_value")
-    binds = [s for s in walk_local(ap.node) if isinstance(s, ast.Assign) and isinstance(s.targets[0], ast.Tuple) and [src(e) for e in s.targets[0].elts] == ["left_value", "right_value"]]
-    ok = ok and len(binds) == 1 and "self.left._id_" in src(binds[0].value.elts[0]) and "self.right._id_" in src(binds[0].value.elts[1])
+    # which operand does each local derive from? (tuple unpacking pairs element by element; re-assignments keep the role)
+    roles: Dict[str, Set[str]] = {}
+
+    def role_of(e: ast.expr) -> Set[str]:
+        out: Set[str] = set()
+        for x in ast.walk(e):
+            if isinstance(x, ast.Attribute) and is_self_attr(x) and x.attr in ("left", "right"):
+                out.add(x.attr)
+            if isinstance(x, ast.Name) and x.id in roles:
+                out |= roles[x.id]
+        return out
+
+    for _ in range(4):
+        for st in walk_local(ap.node):
+            if isinstance(st, ast.Assign):
+                for t in st.targets:
+                    if isinstance(t, ast.Tuple) and isinstance(st.value, ast.Tuple) and len(t.elts) == len(st.value.elts):
+                        for te, ve in zip(t.elts, st.value.elts):
+                            if isinstance(te, ast.Name):
+                                roles.setdefault(te.id, set()).update(role_of(ve))
+                    elif isinstance(t, ast.Name):
+                        roles.setdefault(t.id, set()).update(role_of(st.value))
+    ok = len(calls) == 1 and len(calls[0].args) == 2 and role_of(calls[0].args[0]) == {"left"} and role_of(calls[0].args[1]) == {"right"}
     r.check(ok, "Comparator.apply_operation#left-right", site(ap), src(calls[0]) if calls else "", "operation(left value, right value)", "the comparator does not apply its operation to (left, right) in that order")
     return r
 
